@@ -157,6 +157,8 @@ pub fn run_case(ctx: &Ctx, case: &Case) -> Outcome {
     }
     // who touched each key last: (command, role of the node it was issued on)
     let mut last_touch: BTreeMap<String, Vec<(String, &'static str)>> = BTreeMap::new();
+    // nodes on which a command on each key was issued
+    let mut touched_at: BTreeMap<String, std::collections::BTreeSet<usize>> = BTreeMap::new();
     let mut on_secondary = 0;
     let mut unsettled_pairs = 0;
     let mut prev_unsettled_key: Option<String> = None;
@@ -172,6 +174,7 @@ pub fn run_case(ctx: &Ctx, case: &Case) -> Outcome {
             c.client(at, admin_lines("d", "tok", &line));
             if let Some(k) = key_of(&st.cmd) {
                 last_touch.entry(k.clone()).or_default().push((cmd_name(&st.cmd).to_string(), role));
+                touched_at.entry(k.clone()).or_default().insert(at);
                 if prev_unsettled_key.as_ref() == Some(&k) {
                     unsettled_pairs += 1;
                 }
@@ -224,8 +227,9 @@ pub fn run_case(ctx: &Ctx, case: &Case) -> Outcome {
                         } else {
                             "only-increments-on-secondaries"
                         };
-                        let what = if who.starts_with("key-") { "any" } else { what };
-                        let sig = format!("C04|diverged|{}|{}", what, who);
+                        // where: the node that differs issued a command on this key itself, or only received copies
+                        let where_ = if touched_at.get(k).map(|s| s.contains(&i)).unwrap_or(false) { "on-a-node-that-issued-a-command-on-the-key" } else { "on-a-node-that-only-received-copies" };
+                        let sig = if who.starts_with("key-") { format!("C04|diverged|any|{}|{}", who, where_) } else { format!("C04|diverged|{}|{}", what, who) };
                         if ctx.is_known(&sig) {
                             // a listed finding: this key is excluded (counted), the other keys are still judged
                             *known_hits.entry(sig).or_insert(0) += 1;
